@@ -194,6 +194,9 @@ func (w *world) apply(o op) {
 
 func main() {
 	drv.WorkerMain(concFactory)
+	if os.Getenv("VERIF_RACEPASS") != "" {
+		racePass()
+	}
 	tierF := flag.String("tier", "", "")
 	flag.String("prop", "C05", "")
 	flag.Parse()
